@@ -228,3 +228,14 @@ def _maupiti_final_conv_nobias(v):
     return v['monitor'] == 'integerize-crash' and d.get('sig') == 'maupiti:TypeError' and \
         d.get('final_layer_kind') == 'conv' and d.get('final_layer_has_bias') is False and \
         "'NoneType' and 'Tensor'" in str(d.get('exc', ''))
+
+
+@predicate('pit-import-plain-consumer-of-user-layer')
+def _pit_manual_plain_consumer(v):
+    """autoconvert_layers=False ('import' mode): the masker-sharing analysis is not run, so nothing
+    adapts or freezes a standard conv/linear layer fed by a user-placed PIT layer; pruning that layer
+    gives a consumer whose static input width disagrees with the tensor reaching it."""
+    c = v.get('case') or {}
+    d = _d(v)
+    return c.get('kind') == 'manual' and c.get('plain_consumer') is True and \
+        'excluded-consumer' in (d.get('taints') or [])
